@@ -911,12 +911,24 @@ pub enum XiMode {
     Benign,
     /// 10^-U(0,k) or 1-10^-U(0,k)
     Corner(f64),
+    /// values below the f64 epsilon down to the smallest subnormal (still inside (0,1))
+    Tiny,
 }
 
 pub fn draw_xi(rng: &mut Rng, mode: XiMode) -> f64 {
     match mode {
         XiMode::Uniform => rng.fo(),
         XiMode::Benign => rng.range(0.2, 0.8),
+        XiMode::Tiny => match rng.below(8) {
+            0 => 5e-324,
+            1 => f64::MIN_POSITIVE,
+            2 => 2f64.powi(-53),
+            3 => 2f64.powi(-60),
+            4 => 1e-17,
+            5 => 10f64.powf(-rng.range(16.0, 40.0)),
+            6 => 10f64.powf(-rng.range(40.0, 300.0)),
+            _ => rng.range(0.3, 0.9),
+        },
         XiMode::Corner(k) => {
             let r = rng.f();
             if r < 0.45 {
